@@ -2,6 +2,240 @@
 
 package main
 
-import "github.com/theparanoids/ysshra/internal/zzverif/ev"
+import (
+	"bytes"
+	"context"
+	"crypto/tls"
+	"encoding/json"
+	"fmt"
+	"os"
+	"strings"
+	"time"
 
-func checkC18(c *ev.Ctx) { c.Cap("not implemented") }
+	"github.com/theparanoids/crypki/proto"
+	"golang.org/x/crypto/ssh"
+
+	"github.com/theparanoids/ysshra/crypki"
+	"github.com/theparanoids/ysshra/internal/zzverif/ev"
+)
+
+type c18Server struct {
+	Identity   string // ca1 | ca2 | foreign | selfsigned | expired | notyet | othername
+	Proto      string // 1.0-1.1 | 1.2 | 1.3 | 1.0-1.3
+	ClientAuth string // require | request | ignore
+}
+
+type c18Case struct {
+	Bundle  string // one | two | both
+	Servers []c18Server
+}
+
+func (k c18Case) genuine(s c18Server) bool {
+	if s.Proto == "1.0-1.1" {
+		return false
+	}
+	switch s.Identity {
+	case "ca1":
+		return true
+	case "ca2":
+		return k.Bundle != "one"
+	}
+	return false
+}
+
+func c18Why(k c18Case, s c18Server) string {
+	switch {
+	case s.Identity == "ca2" && k.Bundle == "one":
+		return "certificate issued by a CA that is not in the configured bundle"
+	case s.Identity == "foreign":
+		return "certificate issued by a foreign CA"
+	case s.Identity == "selfsigned":
+		return "self-signed certificate"
+	case s.Identity == "expired":
+		return "expired certificate"
+	case s.Identity == "notyet":
+		return "certificate not yet valid"
+	case s.Identity == "othername":
+		return "certificate valid only for another name/address"
+	case s.Proto == "1.0-1.1":
+		return "server offering only TLS 1.0-1.1"
+	}
+	return "?"
+}
+
+func c18Run(c *ev.Ctx, k c18Case) {
+	c.Eval()
+	files := map[string][]string{"one": {c17PKI.CA1File}, "two": {c17PKI.CA1File, c17PKI.CA2File}, "both": {c17PKI.BothFile}}[k.Bundle]
+	for i, s := range c17Farm.servers {
+		s.reset()
+		if i >= len(k.Servers) {
+			continue
+		}
+		sv := k.Servers[i]
+		minV, maxV := uint16(tls.VersionTLS10), uint16(tls.VersionTLS13)
+		switch sv.Proto {
+		case "1.0-1.1":
+			maxV = tls.VersionTLS11
+		case "1.2":
+			minV, maxV = tls.VersionTLS12, tls.VersionTLS12
+		case "1.3":
+			minV = tls.VersionTLS13
+		}
+		ca := map[string]tls.ClientAuthType{"require": tls.RequireAndVerifyClientCert, "request": tls.RequestClientCert, "ignore": tls.NoClientCert}[sv.ClientAuth]
+		cfg := c17PKI.serverTLS(sv.Identity, s.ip, minV, maxV, ca)
+		s.mu.Lock()
+		s.tls = cfg
+		s.ans = answer{Kind: "ok", Key: c17CertLines[i%len(c17CertLines)]}
+		s.mu.Unlock()
+	}
+	var eps []string
+	for i := range k.Servers {
+		eps = append(eps, fmt.Sprintf("127.0.0.%d", i+1))
+	}
+	signer, err := crypki.NewSigner(crypki.SignerConfig{TLSClientKeyFile: c17PKI.ClientKeyFile, TLSClientCertFile: c17PKI.ClientCertFile, TLSCACertFiles: files,
+		CrypkiEndpoints: eps, CrypkiPort: uint(c17Farm.port), Retries: 1, PerTryTimeout: 2 * time.Second})
+	if err != nil {
+		c.Violation("C18:newsigner-refuses-valid-config", err.Error(), k)
+		return
+	}
+	req := &proto.SSHCertificateSigningRequest{KeyMeta: &proto.KeyMeta{Identifier: "slot"}, Principals: []string{"alice"}, PublicKey: c17CertLines[0], Validity: 60}
+	ctx, cancel := context.WithTimeout(context.Background(), 30*time.Second)
+	defer cancel()
+	var certs []ssh.PublicKey
+	var serr error
+	if p := ev.Guard(func() { certs, _, serr = signer.Sign(ctx, req) }); p != "" {
+		c.Violation("C18:crash:"+ev.PanicSite(p), p, k)
+		return
+	}
+	first := -1
+	for i, s := range k.Servers {
+		if k.genuine(s) {
+			first = i
+			break
+		}
+	}
+	c.Outcome(fmt.Sprintf("bundle=%s/endpoints=%d/first-genuine=%d/err=%v", k.Bundle, len(k.Servers), first, serr != nil))
+	c.Nontrivial(ev.JSON(k))
+	for i, s := range c17Farm.servers {
+		if i >= len(k.Servers) {
+			break
+		}
+		s.mu.Lock()
+		n, versions, peers, hs := len(s.Requests), append([]uint16{}, s.Versions...), s.PeerCerts, s.Handshakes
+		s.mu.Unlock()
+		sv := k.Servers[i]
+		if !k.genuine(sv) {
+			if n > 0 {
+				c.Violation("C18:impostor-served:"+sv.Identity+":"+sv.Proto, fmt.Sprintf("the RPC handler of endpoint %d ran although it is an impostor (%s)", i, c18Why(k, sv)), k)
+			}
+			if first < 0 || i < first {
+				if hs == 0 {
+					c.Count("impostors_not_even_dialled", 1)
+				}
+			}
+			continue
+		}
+		if i == first {
+			if n != 1 {
+				c.Violation("C18:genuine-endpoint-not-used", fmt.Sprintf("genuine endpoint %d (identity %s, %s, client-auth %s, bundle %s) received %d requests", i, sv.Identity, sv.Proto, sv.ClientAuth, k.Bundle, n), k)
+				continue
+			}
+			if versions[0] < tls.VersionTLS12 {
+				c.Violation("C18:old-protocol-negotiated", fmt.Sprintf("negotiated TLS version %#x", versions[0]), k)
+			}
+			if sv.ClientAuth != "ignore" {
+				if len(peers[0]) == 0 || !bytes.Equal(peers[0][0].Raw, c17PKI.clientLeaf.Raw) {
+					c.Violation("C18:client-certificate-not-presented:"+sv.ClientAuth, "the server asked for a client certificate and did not receive the configured one", k)
+				}
+			}
+		} else if n > 0 {
+			c.Violation("C18:contacts-later-endpoint", fmt.Sprintf("endpoint %d was used although endpoint %d had already signed", i, first), k)
+		}
+	}
+	if first < 0 {
+		if serr == nil {
+			c.Violation("C18:success-against-impostors-only", fmt.Sprintf("Sign succeeded with %d certificates although no endpoint is genuine", len(certs)), k)
+		}
+		return
+	}
+	if serr != nil {
+		c.Violation("C18:genuine-endpoint-fails:"+k.Servers[first].Identity+":"+k.Servers[first].Proto+":"+k.Servers[first].ClientAuth+":"+k.Bundle, fmt.Sprintf("endpoint %d is genuine but Sign failed: %v", first, serr), k)
+		return
+	}
+	want, _, _, _, _ := ssh.ParseAuthorizedKey([]byte(c17CertLines[first%len(c17CertLines)]))
+	if len(certs) != 1 || !bytes.Equal(certs[0].Marshal(), want.Marshal()) {
+		c.Violation("C18:reply-from-wrong-endpoint", fmt.Sprintf("Sign did not return the certificate of the first genuine endpoint %d", first), k)
+	}
+}
+
+func checkC18(c *ev.Ctx) {
+	c.Rule("real crypki.NewSigner / Sign over real TLS against harness gRPC servers on 127.0.0.1..3:port whose TLS personality is swapped per configuration: CA bundle {one file, two files, one file with two certificates} x server identity {configured CA 1, CA 2, foreign CA, self-signed, expired, not yet valid, other name} x protocol range {1.0-1.1, 1.2, 1.3, 1.0-1.3} x client-certificate policy {require+verify, request, ignore} (252 single-endpoint configurations), plus endpoint lists of length 2..3 with every placement of one genuine server among impostors of 2 kinds (thorough: 6 kinds, two genuine servers); servers record handshakes, negotiated version, peer certificates and whether the RPC handler ran. non-trivial = every configuration; distinct by configuration")
+	c.Assume("TLS and gRPC libraries run with their own goroutines and real time; outcomes are deterministic functions of the configuration; handshake internals are trusted")
+	c17PKI = newPKI()
+	defer os.RemoveAll(c17PKI.dir)
+	// make the process-wide "system" pool contain the foreign CA: a client that trusts system roots instead of (or in
+	// addition to) the configured bundle then accepts the foreign-CA impostor, which the oracle reports
+	os.Setenv("SSL_CERT_FILE", c17PKI.ForeignFile)
+	os.Setenv("SSL_CERT_DIR", c17PKI.dir+"/no-such-dir")
+	c17Farm = newFarm(c17PKI, 3)
+	defer c17Farm.stop()
+	if c.ReplayCase != nil {
+		var k c18Case
+		json.Unmarshal(c.ReplayCase, &k)
+		c18Run(c, k)
+		return
+	}
+	n := 0
+	for _, b := range []string{"one", "two", "both"} {
+		for _, id := range []string{"ca1", "ca2", "foreign", "selfsigned", "expired", "notyet", "othername"} {
+			for _, pr := range []string{"1.2", "1.0-1.1", "1.3", "1.0-1.3"} {
+				for _, ca := range []string{"require", "request", "ignore"} {
+					k := c18Case{Bundle: b, Servers: []c18Server{{id, pr, ca}}}
+					c18Run(c, k)
+					n++
+					if n%53 == 1 {
+						c.Sample(k)
+					}
+				}
+			}
+		}
+	}
+	impostors := []c18Server{{"foreign", "1.2", "require"}, {"ca1", "1.0-1.1", "ignore"}}
+	if c.Thorough() {
+		impostors = append(impostors, c18Server{"selfsigned", "1.3", "request"}, c18Server{"expired", "1.0-1.3", "require"}, c18Server{"othername", "1.2", "ignore"}, c18Server{"notyet", "1.3", "require"})
+	}
+	genuine := []c18Server{{"ca1", "1.3", "require"}, {"ca2", "1.2", "request"}}
+	for _, b := range []string{"two", "one"} {
+		for _, g := range genuine {
+			for _, L := range []int{2, 3} {
+				for pos := 0; pos < L; pos++ {
+					var fill func(cur []c18Server)
+					fill = func(cur []c18Server) {
+						if len(cur) == L {
+							k := c18Case{Bundle: b, Servers: append([]c18Server{}, cur...)}
+							c18Run(c, k)
+							n++
+							if n%41 == 0 {
+								c.Sample(k)
+							}
+							return
+						}
+						if len(cur) == pos {
+							fill(append(cur, g))
+							return
+						}
+						for _, im := range impostors {
+							fill(append(cur, im))
+						}
+						if c.Thorough() && len(cur) > pos {
+							fill(append(cur, genuine[0])) // a second genuine server later in the list must not be contacted
+						}
+					}
+					fill(nil)
+				}
+			}
+		}
+	}
+	c.Set("configurations", n)
+	_ = strings.Join
+}
